@@ -3,7 +3,7 @@
 Rule table (one entry per rejection rule of the property statement) x syntactic positions x accepted
 prefix histories x {Polars, SQLite}.  The offending constructs are built through the public API by small
 closures (they are not expressible as well-typed programs by construction).  Oracle O-EXC: the verb
-call itself raises, the class is the documented one, it is the same on both backends, and the input
+call itself raises, the class is the documented one, it is the same on all four backends (Polars, SQLite, and PostgreSQL / SQL Server tables bound to a stub DBAPI), and the input
 table is unchanged and still exports to the same frame (I14).  Converse: generated accepted pipelines
 export on Polars without an internal error (shared pipeline loop, findings exc:pol / accept / excls).
 """
@@ -255,16 +255,22 @@ def make_tables(be):
     return backend, t, u
 
 
-def frame_of(tb):
+BES = ("pol", "sqlite", "postgres", "mssql")  # the last two are bound to a stub DBAPI: verbs and build_query run, nothing executes
+COMPILE_ONLY = ("postgres", "mssql")
+
+
+def frame_of(tb, be="pol"):
     import pydiverse.transform as pdt
 
+    if be in COMPILE_ONLY:
+        return tb >> pdt.build_query()
     return tb >> pdt.export(pdt.Polars())
 
 
 def judge_case(run, label, expected, fn, tabs, prefix, grouped_ok=True):
-    """Run one rejection case on both backends; returns outcomes per backend."""
+    """Run one rejection case on every backend; returns outcomes per backend."""
     outs = {}
-    for be in ("pol", "sqlite"):
+    for be in BES:
         t, u, other = tabs[be]
         try:
             tb = prefix(t)
@@ -272,7 +278,7 @@ def judge_case(run, label, expected, fn, tabs, prefix, grouped_ok=True):
             outs[be] = ("prefix_failed", type(e).__name__)
             continue
         try:
-            before = frame_of(tb) if not _grouped(tb) else None
+            before = frame_of(tb, be) if not _grouped(tb) else None
         except Exception:
             before = None
         M.SAN.drain()
@@ -292,8 +298,11 @@ def judge_case(run, label, expected, fn, tabs, prefix, grouped_ok=True):
         # table still usable and unchanged
         if before is not None:
             try:
-                after = frame_of(tb)
-                p = compare.frames_equal(before, after, ordered=(be == "pol"))
+                after = frame_of(tb, be)
+                if be in COMPILE_ONLY:
+                    p = None if before == after else "build_query text changed"
+                else:
+                    p = compare.frames_equal(before, after, ordered=(be == "pol"))
                 if p:
                     run.finding(Finding("unusable", be, None, f"{label}: input table exports differently after the rejected call: {p}", extra={"feature": None}), None)
             except Exception as e:  # noqa: BLE001
@@ -332,8 +341,9 @@ def report(run, label, expected, outs):
                                 extra={"feature": feat or "rule:" + label.split("|")[0]}), None)
         else:
             run.counters["rejected_as_documented"] += 1
+            run.counters["rejected_as_documented:" + be] += 1
     if len(set(classes.values())) > 1 and all(o[0] != "prefix_failed" for o in outs.values()):
-        run.finding(Finding("backend_differs", "pol|sqlite", None, f"{label}: outcome differs between backends: {classes}", extra={"feature": feat or "rule:" + label.split("|")[0]}), None)
+        run.finding(Finding("backend_differs", "|".join(BES), None, f"{label}: outcome differs between backends: {classes}", extra={"feature": feat or "rule:" + label.split("|")[0]}), None)
 
 
 def execute(run, prop, shard):
@@ -341,9 +351,9 @@ def execute(run, prop, shard):
 
     rng = random.Random(f"C14:{run.seed}:{run.tier}")
     tabs = {}
-    made = {be: make_tables(be) for be in ("pol", "sqlite")}
-    tabs["pol"] = (made["pol"][1], made["pol"][2], made["sqlite"][1])
-    tabs["sqlite"] = (made["sqlite"][1], made["sqlite"][2], made["pol"][1])
+    made = {be: make_tables(be) for be in BES}
+    for be in BES:
+        tabs[be] = (made[be][1], made[be][2], made["sqlite" if be == "pol" else "pol"][1])
     pres = prefixes()
     n_pref = 3 if run.tier == "quick" else len(pres)
     # ---- expression-level rules x positions x hosts x prefixes
@@ -394,7 +404,7 @@ def execute(run, prop, shard):
                      sample={"case": label, "expected": sorted(expected), "observed": {k: list(v[:2]) for k, v in outs.items()}} if run.evaluations % 300 == 0 else None)
             report(run, label, expected, outs)
     # summarize() without arguments and without grouping
-    for be in ("pol", "sqlite"):
+    for be in BES:
         t = tabs[be][0]
         try:
             t >> pdt.summarize()
@@ -409,7 +419,8 @@ def execute(run, prop, shard):
     spec["owns"] = ("exc:pol", "accept:", "excls:", "san:I14")
     pipeline.SPECS["C14"] = spec
     pipeline.run(run, "C14", n)
-    run.inconclusive_if(run.counters["rejected_as_documented"] < 500, "fewer than 500 documented rejections observed")
+    for be in BES:
+        run.inconclusive_if(run.counters["rejected_as_documented:" + be] < 500, f"fewer than 500 documented rejections observed on {be}")
 
 
 def finalize(run, prop):
@@ -418,7 +429,7 @@ def finalize(run, prop):
         "unknown / hidden / foreign columns, duplicate names, grouped / same-origin / other-backend joins and unions, slice_head on grouped, "
         "full join with inequality, markers outside arrange, bad casts, const-parameter violations, non-expression arguments) x syntactic "
         "positions (top level, arithmetic, case branch / condition, partition_by= / arrange= / filter=, via C. and via table references) x "
-        "hosting verbs x accepted prefix histories x {Polars, SQLite}; plus generated accepted pipelines for the converse clause. "
+        "hosting verbs x accepted prefix histories x {Polars, SQLite, PostgreSQL, SQL Server (the last two compile-only: usability = unchanged build_query text)}; plus generated accepted pipelines for the converse clause. "
         "distinct = distinct (rule, position, host, prefix)",
         pipeline.ASSUME_COMMON + ["the documented class per rule is taken from the property statement, C09's statement and the deliberate raise sites"],
     )
